@@ -49,6 +49,10 @@ Inductive ev :=
 | Callback (opened : bool) (t : Z)
 | Probe (full : bool) (ctabs : list Z) (pend : list (Z * Z)) (stabs : list N) (goroutines : N)
 | Stim (s : stim) (t : N) (md : option mdt) (peer : str)
+| Route (r : N) (keyed : bool) (key : option str)       (* an RPC issued through AsChannel / KeyAsChannel(key) *)
+| ReadyObs (keyed : bool) (key : option str) (ready : bool) (all : list N)
+| WaitCall (n : N) (keyed : bool) (key : option str)
+| WaitRet (n : N) (r : res)
 | Teardown
 | Panic
 | Skip
